@@ -112,6 +112,7 @@ class Extraction:
         self.proofs = []      # (where, stmt text, proof text)
         self.matched = {}     # id -> matched source text
         self.tail = None      # fragment only: expression appended as the return value
+        self.isolation = False  # True: default Verus loop isolation (needed for invariant_except_break / loop ensures)
         self.splice = None    # fragment only: do not emit a fn; paste the text at /*@@SPLICE:<id>*/
 
 
@@ -245,6 +246,31 @@ def desugar_let_chains(body, drops, fn_disp):
             new = "loop %s" % ("{ if %s { %s } break; }" % (ops[0], _nest(ops[1:], blk)))
             drops.append("%s: let-chain `while %s` desugared to loop/if-let/continue/break (rule 2)" % (fn_disp, re.sub(r"\s+", " ", cond.strip())[:100]))
             body = body[:s] + new + body[c + 1:]
+
+
+def desugar_ref_patterns(body, drops, fn_disp):
+    """rule 4: `let Some(&x) = E else { B };` -> `let Some(x_ref_) = E else { B }; let x = *x_ref_;`
+    (Verus does not support reference patterns; `&x` against a `&T: Copy` scrutinee is exactly a deref-copy)"""
+    while True:
+        masked = rsrc.mask(body)
+        m = re.search(r"\blet\s+Some\s*\(\s*&\s*([A-Za-z_]\w*)\s*\)\s*=", masked)
+        if not m:
+            return body
+        var = m.group(1)
+        # find `else {` .. `}` `;` that closes this let-else
+        me = re.search(r"\belse\b", masked[m.end():])
+        if not me:
+            raise SpecError("ref pattern outside let-else is not covered by rule 4")
+        o, c = _block_after(masked, m.end() + me.end())
+        k = c + 1
+        while k < len(masked) and masked[k] in " \t\n":
+            k += 1
+        if k >= len(masked) or masked[k] != ";":
+            raise SpecError("ref pattern outside let-else is not covered by rule 4")
+        head = body[m.start():m.end()]
+        new_head = re.sub(r"&\s*" + var, var + "_ref_", head)
+        body = body[:m.start()] + new_head + body[m.end():k + 1] + " let %s = *%s_ref_;" % (var, var) + body[k + 1:]
+        drops.append("%s: reference pattern `Some(&%s)` desugared to a binding plus `let %s = *%s_ref_;` (rule 4)" % (fn_disp, var, var, var))
 
 
 def desugar_for_ranges(body, drops, fn_disp):
@@ -388,7 +414,10 @@ def _apply_subst(body, ex, gen, fn_disp):
             body = body[:s0] + r + body[e:]
             pos = s0 + len(r)
         if n == 0:
-            raise LostAnchor("%s: %s %s text not found: `%s`" % (fn_disp, kind, oid, src_t[:80]))
+            # the expression is not (any more) in the source: nothing to outline; whatever the
+            # function contains instead is verified as it stands (or rejected as unsupported)
+            gen.drops.append("%s: %s %s: pattern `%s` does not occur in the current source (nothing replaced)" % (fn_disp, kind, oid, src_t[:80]))
+            continue
         if kind == "outline":
             gen.outlines.append((oid, re.sub(r"\s+", " ", ex.matched[oid])))
             gen.drops.append("%s: outlined expression %s `%s` -> `%s` (assumed contract on the helper)" %
@@ -417,7 +446,7 @@ def _insert_loop_specs(body, ex, emit_clause):
         if kw == "for":
             pass
         spec = []
-        for kind in ("invariant", "ensures", "decreases"):
+        for kind in ("invariant_except_break", "invariant", "ensures", "decreases"):
             cls = [cl for cl in by_loop[k] if cl.kind == kind]
             if not cls:
                 continue
@@ -593,6 +622,7 @@ def expand(template_path, tree):
             body = _strip_log_stmts(body, gen.drops, fn_disp)
             body = desugar_let_chains(body, gen.drops, fn_disp)
             body = desugar_for_ranges(body, gen.drops, fn_disp)
+            body = desugar_ref_patterns(body, gen.drops, fn_disp)
             body = _insert_proofs(body, ex, fn_disp)
             body = _apply_subst(body, ex, gen, fn_disp)
             outlines_seen.update(ex.matched)
@@ -611,7 +641,8 @@ def expand(template_path, tree):
                 gen.drops.append("%s: signature substituted: `%s` -> `%s`" % (fn_disp, re.sub(r"\s+", " ", item.header.strip()), ex.sig.strip()))
             first = len(out_lines) + 1
             emit("// ---- extracted from %s (%s), line %d" % (f, ex.path, item.line()))
-            emit("#[verifier::loop_isolation(false)]")
+            if not ex.isolation:
+                emit("#[verifier::loop_isolation(false)]")
             emit(head)
             for kind in ("requires", "ensures"):
                 cls = [cl for cl in ex.clauses if cl.kind == kind and cl.loop is None]
@@ -642,7 +673,7 @@ def expand(template_path, tree):
 
     def _vb(m):
         if m.group(1) not in outlines_seen:
-            raise SpecError("verbatim %s has no outline" % m.group(1))
+            return "unimplemented!() /* outlined expression %s does not occur in the current source */" % m.group(1)
         return re.sub(r"\s*\n\s*", " ", outlines_seen[m.group(1)])
     text = re.sub(r"/\*@@VERBATIM:([\w.]+)\*/", _vb, text)
 
@@ -731,6 +762,8 @@ def _parse_extract_directive(ex, e):
         ex.tail = e[5:].strip()
     elif e.startswith("splice:"):
         ex.splice = e[7:].strip()
+    elif e.startswith("isolation:"):
+        ex.isolation = e[10:].strip() == "on"
     elif e == "noret":
         ex.noret = True
     elif e.startswith("fragment:"):
@@ -745,7 +778,7 @@ def _parse_extract_directive(ex, e):
     elif e.startswith("decreases:"):
         ex.clauses.append(Clause("decreases", "decreases", e[10:].strip()))
     elif e.startswith("loop "):
-        m = re.match(r"loop\s+(\d+)\s+(invariant|ensures)\s+([\w.]+)\s*:\s*(.*)$", e, re.S)
+        m = re.match(r"loop\s+(\d+)\s+(invariant_except_break|invariant|ensures)\s+([\w.]+)\s*:\s*(.*)$", e, re.S)
         if m:
             ex.clauses.append(Clause(m.group(2), m.group(3), m.group(4).strip(), loop=int(m.group(1))))
             return
